@@ -67,6 +67,53 @@ theorem removeAll_local_only_leaves_tracking_ref :
     removeAll refs "bugs" ["origin"] = ["refs/heads/main"] := by
   decide
 
+/-! ## wipe removes bugs and identities at once: removals of packed refs must be serialised -/
+
+theorem removeSerial_removes (rs : List String) : ∀ (file : List String) (x : String), x ∈ rs → x ∉ removeSerial file rs := by
+  induction rs with
+  | nil => intro _ _ h; cases h
+  | cons r rest ih =>
+    intro file x hx
+    simp only [removeSerial, List.foldl_cons]
+    have keep : ∀ (l : List String) (f : List String), x ∉ f → x ∉ l.foldl (fun f r => f.filter (· != r)) f := by
+      intro l
+      induction l with
+      | nil => intro f h; exact h
+      | cons a t iht =>
+        intro f h
+        simp only [List.foldl_cons]
+        apply iht
+        intro hm
+        exact h (List.mem_filter.mp hm).1
+    rcases List.mem_cons.mp hx with rfl | hx'
+    · apply keep
+      simp
+    · exact ih _ x hx'
+
+/-- and serialised removals touch nothing else -/
+theorem removeSerial_frame (rs : List String) : ∀ (file : List String) (x : String), x ∈ file → x ∉ rs → x ∈ removeSerial file rs := by
+  induction rs with
+  | nil => intro file x h _; exact h
+  | cons r rest ih =>
+    intro file x hx hn
+    simp only [removeSerial, List.foldl_cons]
+    apply ih
+    · refine List.mem_filter.mpr ⟨hx, ?_⟩
+      have : x ≠ r := fun e => hn (by rw [e]; simp)
+      simpa using this
+    · intro h; exact hn (List.mem_cons_of_mem _ h)
+
+/-- `packed_rewrite_race`: two goroutines (the bug and the identity half of the pinned tree's wipe)
+each remove a packed ref; both read the file before either writes: the second write brings the
+first ref back.  Kernel-checked witness of the defect found by the C15 sweeps and repaired in /repo
+(RemoveRef is serialised). -/
+theorem packed_rewrite_race :
+    (rewriteRun ["refs/bugs/a", "refs/identities/i", "refs/heads/main"]
+      [{ ref := "refs/bugs/a" }, { ref := "refs/identities/i" }] [0, 1, 0, 1]).1 = ["refs/bugs/a", "refs/heads/main"] ∧
+    (rewriteRun ["refs/bugs/a", "refs/identities/i", "refs/heads/main"]
+      [{ ref := "refs/bugs/a" }, { ref := "refs/identities/i" }] [0, 0, 1, 1]).1 = ["refs/heads/main"] := by
+  decide
+
 /-! ## non-vacuity -/
 
 example : remove ["refs/bugs/abc", "refs/bugs/abd", "refs/remotes/o1/bugs/abc", "refs/remotes/o2/bugs/abc", "refs/identities/abc", "refs/heads/main"]
